@@ -50,7 +50,9 @@ def check_case(case, ctx):
         from ..ref_circuit import snapshot_real
         snap = snapshot_real(b.c)
         sim = WC.make_sim(r)
-        WC.simulate(r, sim)
+        WC.simulate(r, sim, cap_time=case.get('cap_time'))
+        if case.get('cap_time') is not None:
+            ctx.count('captures_at_finite_time')
         if snapshot_real(b.c) != snap:
             ctx.violation('circuit-mutated', f'constructing/running the simulator changed the circuit graph; {G.net_text(net)[:400]}', case)
         if case.get('epochs', 1) > 1:
@@ -60,7 +62,7 @@ def check_case(case, ctx):
                 case2 = dict(case, stim_seed=case['stim_seed'] + e, multi=(e % 2 == 0) and case['multi'])
                 r2 = WC.materialize(case2, b=b)
                 r.stim = r2.stim
-                WC.simulate(r, sim)
+                WC.simulate(r, sim, cap_time=case.get('cap_time'))
                 ctx.count('reused_simulator_epochs')
             vi, vf = WC.expected_values(r)
         c = np.asarray(sim.c)
@@ -176,6 +178,7 @@ def run(spec, ctx):
         caps = 4 if i % 5 == 0 else None        # capacity 4 + XOR-rich circuits provoke overflow
         case = WC.gen_case(rng, xor_rich=True if i % 5 == 0 else None, caps=caps, large=(i == 1))
         case['epochs'] = rng.choice([1, 1, 2, 3]) if i != 1 else 1
+        case['cap_time'] = rng.choice([None, None, None, 0.0, 33.25, 120.5])
         if i == 1:
             ctx.count('large_cases')
         check_case(case, ctx)
